@@ -82,6 +82,7 @@ def wrappings(t, tier):
     pos = positions(t)
     for p in pos:
         yield replace(t, p, lambda x: ("fwd", x))
+        yield replace(t, p, lambda x: ("fwd", x, "kw"))     # hooks written with **kwargs only
     pairs = [(p, q) for p, q in itertools.combinations(pos, 2)
              if p[:len(q)] != q and q[:len(p)] != p]          # disjoint positions
     for p, q in pairs[:MAXPAIRS[tier]]:
